@@ -7,7 +7,7 @@ describe_state(): every quantity is read from an attribute of a simulator object
 
 Output: a tree shaped like the nested observation whose leaves are ``Leaf`` (set of accepted encodings, default
 encoding, tag).  A leaf accepts more than one encoding only where the documents leave a convention open (listed in
-findings/C09-NOTES.md): NIC traffic band above 10, NMNE delta across steps in which the node was not ON, two software
+findings/C09-NOTES.md): NMNE delta across steps in which the node was not ON, two software
 instances with one name.
 """
 from __future__ import annotations
@@ -115,6 +115,9 @@ class RefReader:
         # last reported (node ON)}
         self.nmne_mem: Dict[Tuple[str, int], Dict[str, Tuple[int, int]]] = {}
         self.pairs = 0  # visible != actual pairs among observed components (this step)
+        # kinds of observed component whose source value is non-default while its node is not ON (this step): the
+        # situation in which "not ON -> default" actually hides something
+        self.masked: set = set()
         self.validate()
 
     # -- config ------------------------------------------------------------------------------------------------------
@@ -167,6 +170,7 @@ class RefReader:
     def expected(self, game) -> Any:
         """Tree of Leaf for the state of `game` right now. Call exactly once per reset/step (NMNE memory advances)."""
         self.pairs = 0
+        self.masked = set()
         net = game.simulation.network
         if self.obs_cfg is None:
             return Leaf(0)
@@ -297,6 +301,8 @@ class RefReader:
                 self.pairs += 1
             if live is not None:
                 cands = [enc(s) for s in objs]
+            elif any(enc(s)["health_status"] != 0 for s in objs):
+                self.masked.add(kind)
         if not cands:
             return {k: Leaf(0, tag=tags[k]) for k in keys}
         # two instances under one name (a scenario that declares pre-installed software): either may be "the" one
@@ -318,12 +324,20 @@ class RefReader:
                 for x in f.files.values():
                     if any(c["file_name"] == x.name for c in files_cfg) and x.visible_health_status != x.health_status:
                         self.pairs += 1
-            if live is not None:
-                folders = every
 
         def fs_code(item) -> int:
             src = item.visible_health_status if requires_scan else item.health_status
             return FS_HEALTH[src.name]
+
+        if fc is not None and node is not None:
+            if live is not None:
+                folders = every
+            else:
+                if any(fs_code(f) != 0 for f in every):
+                    self.masked.add("folder")
+                if any(fs_code(x) != 0 for f in every for x in f.files.values()
+                       if any(c["file_name"] == x.name for c in files_cfg)):
+                    self.masked.add("file")
 
         out: Dict[Any, Any] = {}
         codes = [fs_code(f) for f in folders] or [0]
@@ -372,10 +386,9 @@ class RefReader:
     def traffic_leaf(value: float, nic) -> Leaf:
         if nic is None or value == 0:
             return Leaf(0)
-        b = band(value, nic.speed)
-        # the documents give the formula and an 11-valued scale but no rule above 100 % of the NIC's nominal speed:
-        # the raw formula value and the value clamped to the top band are both accepted
-        return Leaf(b, alt=(min(b, 10),) if b > 10 else ())
+        # the scale has 11 values (0..10, as for links): above 100 % of the NIC's nominal speed the top band is the only
+        # encoding inside the declared space
+        return Leaf(min(band(value, nic.speed), 10))
 
     def nmne(self, nic_any, shown: bool, key) -> Dict:
         if not self.capture_nmne or nic_any is None:
